@@ -14,6 +14,10 @@
  *  nofile R sing nb                                  spec = file:<a path that does not exist>
  *  bind R nbth <binding>                             parse_binding_parameter(0, nbth, binding) on a calloc'd VP
  *  pinit nb <spec>                                   PARSEC_MCA_runtime_vpmap=<spec>, MPI_Init_thread, parsec_init(nb): counts only
+ *  cinit nb sing c0,c1,...                           sched_setaffinity to the cpu list, PARSEC_MCA_runtime_singlify_bindings=sing,
+ *                                                    MPI_Init_thread, parsec_init(nb) with the default map: per thread
+ *                                                    "<es->core_id>:ok" or "<core>:OUT{affinity}" when the thread's real
+ *                                                    affinity (pthread_getaffinity_np) leaves the process cpuset
  * observation:  vps=<n> total=<t> | <threads>: [nbcores,ht,cpuset] ... | ...   or   CRASH */
 #include "parsec/parsec_config.h"
 #include <dlfcn.h>
@@ -36,6 +40,8 @@ static int verif_bitmap_set(hwloc_bitmap_t s, unsigned i)
 #undef hwloc_bitmap_set
 #include "hcommon.h"
 #include <unistd.h>
+#include <sched.h>
+#include <pthread.h>
 #include <fcntl.h>
 #include <sys/wait.h>
 #include <sys/mman.h>
@@ -191,6 +197,45 @@ static void do_pinit(char *l)      /* nb <spec> : the user's path, counts only *
     MPI_Finalize();
 }
 
+static void do_cinit(char *l)      /* nb sing cpulist : the user path under a restricted process cpuset */
+{
+    char *p = l; int nb = next_long(&p); long sing = next_long(&p);
+    cpu_set_t mask, th; CPU_ZERO(&mask);
+    while (*p) {
+        while (*p == ' ' || *p == ',') p++;
+        if (!*p) break;
+        char *e; long c = strtol(p, &e, 10); if (e == p) break;
+        CPU_SET((int)c, &mask); p = e;
+    }
+    if (sched_setaffinity(0, sizeof mask, &mask)) { emit("<sched_setaffinity failed>"); return; }
+    fake_cores = 0;
+    char sb[32]; snprintf(sb, sizeof sb, "%ld", sing);
+    setenv("PARSEC_MCA_runtime_singlify_bindings", sb, 1);
+    setenv("PARSEC_MCA_runtime_report_binding_issues", "0", 1);
+    unsetenv("PARSEC_MCA_runtime_vpmap");
+    int prov, argc = 1; char *av[] = { "h_vpmap", NULL }; char **argv = av;
+    MPI_Init_thread(&argc, &argv, MPI_THREAD_SERIALIZED, &prov);
+    parsec_context_t *ctx = parsec_init(nb, &argc, &argv);
+    if (!ctx) { emit("<parsec_init failed>"); return; }
+    int total = 0, g = 0;
+    for (int v = 0; v < ctx->nb_vp; v++) total += ctx->virtual_processes[v]->nb_cores;
+    emit("vps=%d total=%d |", ctx->nb_vp, total);
+    for (int v = 0; v < ctx->nb_vp; v++) {
+        parsec_vp_t *vp = ctx->virtual_processes[v];
+        for (int t = 0; t < vp->nb_cores; t++, g++) {
+            pthread_t id = (0 == g) ? pthread_self() : ctx->pthreads[g];
+            CPU_ZERO(&th); pthread_getaffinity_np(id, sizeof th, &th);
+            int out = 0;
+            for (int c = 0; c < CPU_SETSIZE; c++) if (CPU_ISSET(c, &th) && !CPU_ISSET(c, &mask)) out = 1;
+            emit(" %d:", vp->execution_streams[t]->core_id);
+            if (!out) emit("ok");
+            else { emit("OUT{"); for (int c = 0, k = 0; c < CPU_SETSIZE; c++) if (CPU_ISSET(c, &th)) emit("%s%d", k++ ? "," : "", c); emit("}"); }
+        }
+    }
+    parsec_fini(&ctx);
+    MPI_Finalize();
+}
+
 int main(int argc, char **argv)
 {
     FILE *f = hc_open(argc, argv); char *l;
@@ -200,6 +245,7 @@ int main(int argc, char **argv)
         else if (!strncmp(l, "nofile ", 7)) in_child(do_nofile, l + 7, 20);
         else if (!strncmp(l, "bind ", 5)) in_child(do_bind, l + 5, 60);
         else if (!strncmp(l, "pinit ", 6)) in_child(do_pinit, l + 6, 120);
+        else if (!strncmp(l, "cinit ", 6)) in_child(do_cinit, l + 6, 120);
         else printf("<bad case>\n");
         fflush(stdout);
     }
